@@ -229,6 +229,25 @@ def verify_unit(unit, prop, specdir, outroot, tier, budget):
         res["reason"] = "vacuity guard: loop contract declared but no loop_invariant_step obligation generated"
     else:
         res["status"] = "proved" if unit.kind != "bounded" else "bounded-pass"
+    # thorough tier: every proved unit is re-checked with a second SAT back end (CaDiCaL); disagreement => undecided
+    if tier == "thorough" and res["status"] in ("proved", "bounded-pass") and not unit.solver:
+        cmd4 = [c for c in cmd3 if c != "--trace"] + ["--sat-solver", "cadical"]
+        rc4, so4, se4, dt4 = _sh(cmd4, timeout, budget["mem_gb"])
+        ok2 = None
+        try:
+            doc4 = json.loads(so4)
+            r4 = [it["result"] for it in doc4 if "result" in it]
+            if r4:
+                bad = [x for x in r4[0] if (x["status"] != "SUCCESS") != x.get("description", "").startswith("vx_reach:")]
+                ok2 = not bad
+        except Exception:
+            ok2 = None
+        res["second_backend"] = {"solver": "cbmc 6.11 --sat-solver cadical", "agrees": ok2, "wall_s": round(dt4, 2)}
+        if ok2 is False:
+            res["status"] = "undecided"
+            res["reason"] = "back ends disagree: MiniSat2 proves the unit, CaDiCaL reports a failed obligation"
+        elif ok2 is None:
+            res["second_backend"]["note"] = "no result (timeout or tool error); the first back end's result stands"
     res["wall_s"] = time.time() - t0
     res["_info"] = info
     res["_gb1"] = gb1
@@ -682,6 +701,7 @@ def write_evidence(prop, tier, seed, results, meta, vio, known_hits, undecided, 
                        "obligations": r["obligations"], "discharged": r["discharged"],
                        "reach_markers_confirmed": r["reach_ok"], "backend": r["backend"],
                        "solver_s": round(r["solver_s"], 3), "wall_s": round(r["wall_s"], 2),
+                       "second_backend": r.get("second_backend"),
                        "enforced_contract": u.enforce, "callees_replaced_by_contract": u.replace,
                        "defines": u.defines, "doc": u.doc,
                        "reason": r["reason"][:400]} for u, r in proof],
